@@ -407,6 +407,24 @@ func (e *Env) ident(name string) Term {
 	if sf, ok := fv.P.CS.Specs[name]; ok && len(sf.Params) == 0 {
 		return e.specCall(sf, nil)
 	}
+	// a named local that lives in a cell (captured by a closure, or its address taken): its current value
+	{
+		var found *ssa.Alloc
+		n := 0
+		for _, b := range fv.Fn.Blocks {
+			for _, in := range b.Instrs {
+				if a, ok := in.(*ssa.Alloc); ok && a.Comment == name {
+					found = a
+					n++
+				}
+			}
+		}
+		if n == 1 {
+			if v, ok := fv.vals[found]; ok && v.LV != nil {
+				return fv.load(e.st, v.LV)
+			}
+		}
+	}
 	e.fail("unknown identifier %q", name)
 	return Term{}
 }
@@ -722,7 +740,7 @@ func (e *Env) callExpr(x ECall) Term {
 		argn(1)
 		key := exprString(x.Args[0])
 		return fv.ghostTerm(e.st, "log."+key+".n", SMath)
-	case "fabs", "fisnan", "fisinf", "flt", "fle", "feq", "f32", "f64", "fconst", "ftoi64", "itof64", "fadd", "fmul":
+	case "fabs", "fisnan", "fisinf", "flt", "fle", "feq", "f32", "f64", "fconst", "ftoi64", "itof64", "fadd", "fmul", "fsub":
 		return e.floatBuiltin(x)
 	case "callseq":
 		// callseq(K, i): position of the i-th logged call of K in the global order of logged calls
@@ -1432,7 +1450,7 @@ func (e *Env) floatBuiltin(x ECall) Term {
 	case "itof64":
 		// the conversion float64(n) of the code for an integer n
 		return fv.floatOp("fconv", types.Typ[types.Float64], e.coerce(e.eval(x.Args[0]), SInt))
-	case "fadd", "fmul":
+	case "fadd", "fmul", "fsub":
 		a, b := arg(0), arg(1)
 		if a.Sort.W != b.Sort.W {
 			e.fail("%s: operands of different width", x.Fn)
